@@ -122,6 +122,10 @@ func (s *initFlowSynchronizationImpl) Clear() {
 	s.externalAgentsRegisteredGate.Clear()
 	s.runtimeReadyGate.Clear()
 	s.agentReadyGate.Clear()
+	// agents may arrive at this gate before the expected count of the next
+	// init is known (it is set when the runtime is ready): expect the maximum
+	// again, as a new flow does, instead of the count of the previous init
+	_ = s.agentReadyGate.SetCount(maxAgentsLimit)
 	s.runtimeRestoreReadyGate.Clear()
 }
 
